@@ -1,0 +1,100 @@
+//go:build verif
+
+package server
+
+import (
+	"bytes"
+	"fmt"
+)
+
+// Verification hooks for the command framing path (properties C04 / C16):
+// exported wrappers around readNextCommand and PipelineReader.ReadMessages.
+// A run-time panic of the wrapped code is caught and reported as such.
+
+// VerifParsed is one outcome of readNextCommand.
+type VerifParsed struct {
+	Outcome  string   // "complete" | "incomplete" | "err" | "panic"
+	Args     []string // redcon args (RESP / native / telnet) or msg.Args (HTTP)
+	Kind     int      // 0 redis, 1 tile38 native, 2 telnet, 9999 http
+	Leftover int      // len(leftover)
+	Err      string
+	Wrote    string // bytes written to the connection by the parser (HTTP OPTIONS / websocket)
+}
+
+// VerifReadNextCommand calls the tile38-level readNextCommand (HTTP sniffing +
+// redcon.ReadNextCommand) on a non-empty packet.
+func VerifReadNextCommand(packet []byte) (res VerifParsed) {
+	var wr bytes.Buffer
+	msg := &Message{}
+	defer func() {
+		if r := recover(); r != nil {
+			res = VerifParsed{Outcome: "panic", Err: fmt.Sprint(r)}
+		}
+	}()
+	complete, args, kind, leftover, err := readNextCommand(packet, nil, msg, &wr)
+	res.Kind = int(kind)
+	res.Leftover = len(leftover)
+	res.Wrote = wr.String()
+	if err != nil {
+		res.Outcome = "err"
+		res.Err = err.Error()
+		return res
+	}
+	if !complete {
+		res.Outcome = "incomplete"
+		return res
+	}
+	res.Outcome = "complete"
+	if kind == kindHTTP {
+		res.Args = append([]string(nil), msg.Args...)
+	} else {
+		for _, a := range args {
+			res.Args = append(res.Args, string(a))
+		}
+	}
+	return res
+}
+
+// VerifMsg is what netServe sees of one Message.
+type VerifMsg struct {
+	Args     []string
+	ConnType int
+	Output   int
+}
+
+// VerifPipe is a PipelineReader fed chunk by chunk the way netServe feeds it:
+// one ReadMessages call per network read, the reader being a bytes.Buffer over
+// the bytes of that read.
+type VerifPipe struct {
+	pr  PipelineReader
+	out bytes.Buffer
+}
+
+// NewVerifPipe returns an empty pipeline.
+func NewVerifPipe() *VerifPipe { return &VerifPipe{} }
+
+// Feed hands one network read (1..0xFFFF bytes) to ReadMessages.
+func (p *VerifPipe) Feed(chunk []byte) (msgs []VerifMsg, errs string, panicked string) {
+	defer func() {
+		if r := recover(); r != nil {
+			panicked = fmt.Sprint(r)
+		}
+	}()
+	p.pr.rd = bytes.NewBuffer(chunk)
+	p.pr.wr = &p.out
+	ms, err := p.pr.ReadMessages()
+	for _, m := range ms {
+		msgs = append(msgs, VerifMsg{Args: append([]string(nil), m.Args...),
+			ConnType: int(m.ConnType), Output: int(m.OutputType)})
+	}
+	if err != nil {
+		errs = err.Error()
+	}
+	return msgs, errs, ""
+}
+
+// Buffered returns the carry-over buffer.
+func (p *VerifPipe) Buffered() []byte { return append([]byte(nil), p.pr.buf...) }
+
+// Written returns what the reader wrote to the connection so far.
+func (p *VerifPipe) Written() string { return p.out.String() }
